@@ -120,7 +120,7 @@ CHECKS = {
         "typeshed signatures are out of scope.",
     ),
     "C06": dict(
-        technique="TLA+ spec Calls.tla (EXTENDS Assign/Values): a fixed library of 108 annotated functions (data of the spec; the real "
+        technique="TLA+ spec Calls.tla (EXTENDS Assign/Values): a fixed library of 136 annotated functions (incl. a generic-classes slice: GBox(Generic[T]) with subclasses fixing T, re-parameterising, overriding __init__, bounded / constrained variants, generic dataclasses and a generic Protocol; constructor, method, classmethod and subscripted-class call forms) (data of the spec; the real "
         "Python library is generated from TLC's JSON) x every binding call over 15 literal arguments (<=3 args, <=2 keywords, "
         "plain, *(..)/**{..} and mixed explicit+star forms; literal menu incl. 0 / False / 0.0 / "" / None / ()); ImplCall = transcription of Signature.check_call_with_bound_args (pass 1 bounds via "
         "can_assign with type variables, typevar.solve, default return, return substitution, pass 2, duplicate-diagnostic "
@@ -133,7 +133,7 @@ CHECKS = {
         "is diagnosed iff some argument does not belong to its declared type (for generics: under no admissible type-variable "
         "value), the inferred type contains the modelled result, and the inferred solution fits every argument; bound to the "
         "code by replaying 5.5e3 cases quick (first-built slice in full; defaults slice: all <=1-argument calls plus 1 000 sampled two-argument calls) / all cases thorough + simulation through the real checker and real CPython, "
-        "each observation judged by TLC, drift 0; one named deviation class (orbound-ignored); the protocol-cache defect was repaired.",
+        "each observation judged by TLC, drift 0; three named deviation classes (orbound-ignored, classmethod-on-specialised-class-keeps-free-typevar, subscripted-generic-class-call-unchecked); the protocol-cache defect was repaired.",
         design="2/C06",
         note=TRUSTED + " The result clause is judged on calls whose arguments fit. Candidates for type variables in the oracle: "
         "object, bound, constraints, int/str/bool/float/A/B. Sessions need a fresh Checker; all other calls share one Checker "
@@ -209,13 +209,27 @@ CHECKS = {
     "C11": dict(
         technique="TLA+ state machine Suppression.tla (show_error decision chain, unused/bare ignore passes) vs declarative "
         "RefD, exhaustive TLC; TLC-enumerated files realised as source, checked by the real visitor with the ShowError hook, "
-        "and the Begin/ShowError/End event streams validated step by step by TLC (SuppressionTrace.tla)",
+        "and the Begin/ShowError/End event streams validated step by step by TLC (SuppressionTrace.tla); SuppressionRoutes.tla + "
+        "SuppressionRoutesTrace.tla extend the machine with the enabling decision (command line -e / -d / --enable-all / "
+        "--disable-all over configuration-file sections over the built-in default: ImplEnabled = transcription of main(), "
+        "prepare_constructor_kwargs, sort_key / get_value_from_instances), structured files (14 line shapes: multi-line "
+        "statements, decorators, nested defs, assert_error blocks, leading docstring / import / shebang lines; ignore[a, b]; "
+        "default-off and FunctionDef-node codes) and the caught_errors stack as state (CatchBegin / ShowCaught / CatchEndDrop / "
+        "CatchEndReemit with an exactly-once chain invariant); routes replayed: constructor settings, in-process "
+        "NameCheckVisitor.main() with real temp files and a pyproject.toml (two modules sharing one Checker), python -m pyanalyze",
         text="Model checking: TLC explores every abstract file of <=3 (quick) / <=4 (thorough) lines over 26 line forms x every "
         "settings combination and proves the machine's output equals the documented projection; the real visitor is bound to "
         "the machine by trace validation of every show_error decision (hook) and its final failure list is judged by the "
-        "declarative reference inside TLC. Longer files by TLC simulation.",
+        "declarative reference inside TLC. Longer files by TLC simulation. Every settings request over CLI x config sections for a "
+        "default-on and a default-off code is proved equal to the documented precedence (212k states); catch / re-emit / drop "
+        "and file structure exhaustively for small files (170k-230k states per slice quick; 6.6M / 15M thorough) and by "
+        "simulation for 3-8 lines x 7 codes; quick: 3 lines x 4 unused-reporting settings + 2 lines x all 16 settings (4 lines x "
+        "all settings in thorough); ~124k trace lines, ~14k files replayed in quick.",
         design="2/C11",
-        note=TRUSTED + " Diagnostics are realised with module-level lambdas (undefined_name, unsupported_operation).",
+        note=TRUSTED + " Diagnostics are realised with module-level lambdas and, in the routes slice, at function level, on multi-line statements, "
+        "decorators, nested defs and assert_error blocks; implicit_any is switched off with -d whenever --enable-all is "
+        "requested; `ignore[a, b]` is undocumented: it suppresses nothing and is reported unused; ignore[meta-code] comments "
+        "and the config key disable_all are out of this property's domain (disable_all belongs to C18).",
     ),
     "C12": dict(
         level="exploration",
